@@ -1,8 +1,11 @@
 //! C13 direct oracle harness: the same (dump, symbols) processed `runs` times under each of
 //! three executors and per-run rotated supplier delay scripts must render byte-identically.
 //!
-//! case:  <dump spec tokens, see ../dumpspec.rs>  dl=<k,k,...>  runs=<n>  seed=<s>  [evil=<hex json>]
+//! case:  <dump spec tokens, see ../dumpspec.rs>  dl=<k,k,...> | sk=<k,k,...>  runs=<n>  seed=<s>  [evil=<hex json>]
 //!   dl    delay script: the lookup of module m in run r is delayed by dl[(fnv(code_file) + r) mod len]
+//!   sk    suspension script by module position: the lookup of the i-th M= module in run r suspends
+//!         sk[(i + r) mod len] times (Pending / parked token / sleep) — the case controls which module is slow
+//! The first rendering of every case is the synchronous one (plain supplier, no suspension, executor A).
 //!   evil  contents of the "evil json" file handed to ProcessorOptions::evil_json (unstable_all only)
 //! executors:
 //!   A  one future polled to completion with a no-op waker; a delayed lookup answers Pending k times
@@ -12,7 +15,10 @@
 //! Every run uses a fresh Symbolizer; every HashMap built during a run gets a fresh RandomState.
 //! `E <certs> <modules>`: model correspondence for the evil-json certificate fold (cert_subject per module).
 //! A line `R <hex limits stream>` is the model correspondence case (names of the proc_limits array).
+//! `L <hex lsb> <hex status> <hex cpuinfo>`: model correspondence for the Linux key/value streams (lsb_release
+//!   fields + the text `Linux ...` line, pid, cpu_microcode_version as print_json / print report them).
 //! answer:  n=<distinct renderings> h=<fnv of the first> runs=<total> thr=<threads> fr=<frames>
+//!          ord=<ok | BAD:<first index whose thread_id is not the thread list's>>
 //!          diff=<up to 32 differing JSON paths / text line numbers, or ->
 #[path = "../dumpspec.rs"]
 mod dumpspec;
@@ -93,11 +99,17 @@ struct DelaySupplier<S> {
     inner: S,
     mode: Mode,
     script: Vec<u32>,
+    sk: Vec<u32>,
+    mod_index: Arc<HashMap<String, usize>>,
     run: usize,
     tokens: Arc<Mutex<Tokens>>,
 }
 impl<S> DelaySupplier<S> {
     fn k(&self, module: &(dyn breakpad_symbols::Module + Sync)) -> u32 {
+        if !self.sk.is_empty() {
+            let i = self.mod_index.get(&*module.code_file()).copied().unwrap_or(0);
+            return self.sk[(i + self.run) % self.sk.len()];
+        }
         if self.script.is_empty() {
             return 0;
         }
@@ -197,6 +209,7 @@ struct Rendering {
     text: Vec<u8>,
     threads: usize,
     frames: usize,
+    tids: Vec<u32>,
 }
 
 async fn process_and_render<S: SymbolSupplier + Send + Sync + 'static>(
@@ -222,9 +235,15 @@ async fn process_and_render<S: SymbolSupplier + Send + Sync + 'static>(
             state.print(&mut text).expect("print");
             text.extend_from_slice(b"\n=====brief=====\n");
             state.print_brief(&mut text).expect("print_brief");
-            Rendering { json, text, threads: state.threads.len(), frames: state.threads.iter().map(|t| t.frames.len()).sum() }
+            Rendering {
+                json,
+                text,
+                threads: state.threads.len(),
+                frames: state.threads.iter().map(|t| t.frames.len()).sum(),
+                tids: state.threads.iter().map(|t| t.thread_id).collect(),
+            }
         }
-        Err(e) => Rendering { json: format!("\"ERR {:?}\"", e).into_bytes(), text: vec![], threads: 0, frames: 0 },
+        Err(e) => Rendering { json: format!("\"ERR {:?}\"", e).into_bytes(), text: vec![], threads: 0, frames: 0, tids: vec![] },
     }
 }
 
@@ -291,9 +310,37 @@ fn run_certs(spec_s: &str, mods: &str) -> String {
     format!("E {}", out.join(","))
 }
 
+/// L <hex lsb> <hex status> <hex cpuinfo>  ("-" = empty stream): what print_json / print report from the three
+/// key/value streams: lsb_release {id,release,codename,description}, the text `Linux ...` line, pid, microcode
+fn run_linux(lsb: &str, status: &str, cpuinfo: &str) -> String {
+    let mut spec = Spec { cpu: "x86".into(), os: "linux".into(), ..Default::default() };
+    spec.threads.push(ThreadSpec { id: 1, stack_base: 0x10000, stack: vec![0; 64], regs: Some(vec![]) });
+    spec.lsb = Some(bytes_spec(lsb));
+    spec.status = Some(bytes_spec(status));
+    spec.cpuinfo = Some(bytes_spec(cpuinfo));
+    let dump = Minidump::read(build_dump(&spec)).expect("read");
+    let rend = exec_a(process_and_render(&dump, string_symbol_supplier(HashMap::new()), 0, None));
+    let v: serde_json::Value = serde_json::from_slice(&rend.json).expect("json");
+    let hx = |s: &str| if s.is_empty() { "-".to_string() } else { hex(s.as_bytes()) };
+    let l = &v["lsb_release"];
+    let fields = if l.is_null() {
+        "none".to_string()
+    } else {
+        ["id", "release", "codename", "description"].iter().map(|k| hx(l[*k].as_str().unwrap_or("?"))).collect::<Vec<_>>().join(",")
+    };
+    let pid = if v["pid"].is_null() { "-".to_string() } else { v["pid"].to_string() };
+    let mc = v["system_info"]["cpu_microcode_version"].as_str().map(|s| s.to_string()).unwrap_or_else(|| "-".into());
+    let text_line = rend.text.split(|&b| b == b'\n').find(|l| l.starts_with(b"Linux ")).map(hex).unwrap_or_else(|| "-".into());
+    format!("L {} pid={} mc={} line={}", fields, pid, mc, text_line)
+}
+
 fn run(line: &str) -> String {
     if let Some(h) = line.strip_prefix("R ") {
         return run_limits_names(h.trim());
+    }
+    if let Some(rest) = line.strip_prefix("L ") {
+        let mut it = rest.split_ascii_whitespace();
+        return run_linux(it.next().expect("lsb"), it.next().expect("status"), it.next().expect("cpuinfo"));
     }
     if let Some(rest) = line.strip_prefix("E ") {
         let mut it = rest.split_ascii_whitespace();
@@ -301,6 +348,8 @@ fn run(line: &str) -> String {
     }
     let spec = parse_spec(line.split_ascii_whitespace());
     let dl: Vec<u32> = spec.extra.get("dl").map(|s| s.split(',').filter(|x| !x.is_empty()).map(|x| num(x) as u32).collect()).unwrap_or_default();
+    let sk: Vec<u32> = spec.extra.get("sk").map(|s| s.split(',').filter(|x| !x.is_empty()).map(|x| num(x) as u32).collect()).unwrap_or_default();
+    let mod_index: Arc<HashMap<String, usize>> = Arc::new(spec.modules.iter().enumerate().map(|(i, m)| (m.name.clone(), i)).collect());
     let runs = spec.extra.get("runs").map(|s| num(s) as usize).unwrap_or(8);
     let seed = spec.extra.get("seed").map(|s| num(s)).unwrap_or(1);
     let evil_file = spec.extra.get("evil").map(|h| {
@@ -319,12 +368,24 @@ fn run(line: &str) -> String {
     let mut rng = Xs(seed.wrapping_mul(0x9E3779B97F4A7C15) | 1);
     let mut renderings: Vec<Rendering> = vec![];
     let opt = spec.opt.min(2);
+    // the thread list as the reader sees it: state.threads must be in this order
+    let want_tids: Option<Vec<u32>> = dump.get_stream::<MinidumpThreadList>().ok().map(|l| l.threads.iter().map(|t| t.raw.thread_id).collect());
+    // the synchronous rendering: no suspension at all
+    {
+        let rend = if all_utf8 {
+            let m: HashMap<String, String> = syms.iter().map(|(k, v)| (k.clone(), String::from_utf8(v.clone()).unwrap())).collect();
+            exec_a(process_and_render(&dump, string_symbol_supplier(m), opt, evil_path.as_deref()))
+        } else {
+            exec_a(process_and_render(&dump, BytesSupplier { modules: syms.clone() }, opt, evil_path.as_deref()))
+        };
+        renderings.push(rend);
+    }
     for mode in [Mode::Count, Mode::Token, Mode::Sleep] {
         for r in 0..runs {
             let tokens = Arc::new(Mutex::new(Tokens::default()));
             macro_rules! go {
                 ($inner:expr) => {{
-                    let sup = DelaySupplier { inner: $inner, mode, script: dl.clone(), run: r, tokens: tokens.clone() };
+                    let sup = DelaySupplier { inner: $inner, mode, script: dl.clone(), sk: sk.clone(), mod_index: mod_index.clone(), run: r, tokens: tokens.clone() };
                     let fut = process_and_render(&dump, sup, opt, evil_path.as_deref());
                     match mode {
                         Mode::Count => exec_a(fut),
@@ -368,13 +429,32 @@ fn run(line: &str) -> String {
     }
     let mut all = first.json.clone();
     all.extend_from_slice(&first.text);
+    let mut ord = "ok".to_string();
+    if let Some(w) = &want_tids {
+        'o: for r in &renderings {
+            if r.threads == 0 && r.tids.is_empty() {
+                continue;
+            }
+            if r.tids.len() != w.len() {
+                ord = format!("BAD:len{}", r.tids.len());
+                break;
+            }
+            for (i, (a, b)) in r.tids.iter().zip(w.iter()).enumerate() {
+                if a != b {
+                    ord = format!("BAD:{}", i);
+                    break 'o;
+                }
+            }
+        }
+    }
     format!(
-        "n={} h={:016x} runs={} thr={} fr={} diff={}",
+        "n={} h={:016x} runs={} thr={} fr={} ord={} diff={}",
         distinct.len(),
         fnv(&all),
         renderings.len(),
         first.threads,
         first.frames,
+        ord,
         if diff.is_empty() { "-".to_string() } else { diff.join(",") }
     )
 }
